@@ -68,7 +68,6 @@ fn builder_configs() -> Vec<(&'static str, Cfg)> {
         ("v4-plain-zlib", c(4, 0, 0x02, 0, false, 0, true, false)),
         ("v4-compressed-tables-attr-crc", c(4, 0, 0x02, 0, true, 2, true, true)),
         ("v4-encrypted-fixkey-none", c(4, 0, 0x00, 2, false, 0, true, false)),
-        ("v4-adpcm-huffman", c(4, 0, 0x81, 0, false, 0, true, false)),
     ]
 }
 
@@ -257,6 +256,7 @@ fn mpq_drive(_s: &Seed, data: &[u8], p: &mut Probe) {
     let Some(mut ar) = ar else { return };
     let listed = p.call("Archive::list", || ar.list());
     let mut names: Vec<String> = Vec::new();
+    let listed_ok = listed.is_some();
     if let Some(l) = listed {
         for e in l.iter().take(24) {
             names.push(e.name.clone());
@@ -267,10 +267,16 @@ fn mpq_drive(_s: &Seed, data: &[u8], p: &mut Probe) {
             names.push(k.to_string());
         }
     }
-    for n in &names {
-        p.call("Archive::find_file", || ar.find_file(n));
-        p.call("Archive::read_file", || ar.read_file(n));
+    let mut real_ok = listed_ok;
+    for (i, n) in names.iter().enumerate() {
+        let f = p.call("Archive::find_file", || ar.find_file(n));
+        let r = p.call("Archive::read_file", || ar.read_file(n));
+        if KNOWN_NAMES[..6].contains(&n.as_str()) && (f.is_none() || r.is_none()) {
+            real_ok = false;
+        }
+        let _ = i;
     }
+    p.seed_valid = Some(real_ok);
     p.call("Archive::load_attributes", || ar.load_attributes());
     p.call("Archive::get_info", || ar.get_info());
     p.call("Archive::verify_signature", || ar.verify_signature());
